@@ -342,6 +342,9 @@ func (sesh *Session) Close() error {
 	}
 	_, err = sesh.sb.send((*buf)[:i], new(net.Conn))
 	if err != nil {
+		// the notice could not be sent (the connection picked for it has failed): the session is closed all
+		// the same, so its remaining connections must not be left open waiting for the peer to close them
+		sesh.sb.closeAll()
 		return err
 	}
 	sesh.sb.closeAll()
